@@ -187,7 +187,7 @@ int main(int argc, char **argv)
 	}
 	while (fgets(line, sizeof line, stdin)) {
 		char *sp = strchr(line, ' '); int n;
-		if (!sp) { printf("!unknown\n"); continue; }
+		if (!sp) { printf("!unknown\n"); fflush(stdout); continue; }
 		*sp++ = 0;
 		n = parse_ints(sp);
 		if (!strcmp(line, "w_c19_run")) {
@@ -195,15 +195,16 @@ int main(int argc, char **argv)
 		} else if (!strcmp(line, "w_c19_site")) {
 			/* idx v aux -> argument handed to gsm_fn2gsmtime (or the scheduled frame number) and the time decomposed from it */
 			if (n != 3 || tok[0] < 0 || tok[0] >= (long long)NSITES || tok[1] < 0 || tok[1] > UINT32_MAX
-			    || tok[2] < INT32_MIN || tok[2] > INT32_MAX) { printf("-999\n"); continue; }
+			    || tok[2] < INT32_MIN || tok[2] > INT32_MAX) { printf("-999\n"); fflush(stdout); continue; }
 			struct gsm_time t; uint32_t arg = c19_sites[tok[0]].f((uint32_t)tok[1], (long)tok[2]);
 			gsm_fn2gsmtime(&t, arg);
 			printf("%u ", (unsigned)arg); pr_time(&t); printf("\n");
 		} else if (!strcmp(line, "w_c19_sb")) {
-			if (n != 1 || tok[0] < 0 || tok[0] > UINT32_MAX) { printf("-999\n"); continue; }
+			if (n != 1 || tok[0] < 0 || tok[0] > UINT32_MAX) { printf("-999\n"); fflush(stdout); continue; }
 			struct gsm_time t; unsigned bsic = l1s_decode_sb(&t, (uint32_t)tok[0]);
 			pr_time(&t); printf("%u\n", bsic);
 		} else printf("!unknown\n");
+		fflush(stdout);	/* a sanitizer stop must not lose the answers of the cases before it */
 	}
 	return 0;
 }
